@@ -47,7 +47,7 @@ class Topo(object):
         return seen
 
 
-def pattern_mult(mults, t, pattern_timestep, wrap=True):
+def pattern_mult(mults, t, pattern_timestep, wrap=True, interp=False):
     n = len(mults)
     if n == 0:
         return 1.0
@@ -55,6 +55,10 @@ def pattern_mult(mults, t, pattern_timestep, wrap=True):
         return float(mults[0])
     step = int(math.floor(t / pattern_timestep))
     if wrap:
+        if interp:
+            # options.time.pattern_interpolation: linear between this step's multiplier and the next one's (wrapping)
+            m0, m1 = float(mults[step % n]), float(mults[(step + 1) % n])
+            return m0 + (m1 - m0) * (t - step * pattern_timestep) / float(pattern_timestep)
         return float(mults[step % n])
     if step < 0 or step >= n:
         return 0.0
@@ -71,7 +75,7 @@ def requested_demand(wn, junction, t):
         if pat is None:
             m = 1.0
         else:
-            m = pattern_mult(list(pat.multipliers), t + ts.pattern_start, ts.pattern_timestep, getattr(pat, 'wrap', True))
+            m = pattern_mult(list(pat.multipliers), t + ts.pattern_start, ts.pattern_timestep, getattr(pat, 'wrap', True), bool(ts.pattern_interpolation))
         total += base * m
     return total * wn.options.hydraulic.demand_multiplier
 
@@ -82,7 +86,7 @@ def head_mult(wn, reservoir, t, with_pattern_start):
     if pat is None:
         return 1.0
     tt = t + (ts.pattern_start if with_pattern_start else 0)
-    return pattern_mult(list(pat.multipliers), tt, ts.pattern_timestep, getattr(pat, 'wrap', True))
+    return pattern_mult(list(pat.multipliers), tt, ts.pattern_timestep, getattr(pat, 'wrap', True), bool(ts.pattern_interpolation))
 
 
 # ---- hydraulic laws (documentation constants) -------------------------------------------------
